@@ -106,7 +106,7 @@ def lattices(tier, rng):
     for a, h in ([[0.0, 0.0], 0.1], [[-125.4, 31.5], 0.1], [[-0.3, 0.1], 0.05], [[12.345, -45.678], 0.25]):
         for c in _subsets_2x2():
             out.append(('2x2%r@%r/%r' % (c, a, h), {'anchor': a, 'dh': h, 'cells': c, 'ctor': 'from_origins'}))
-    nrand = 60 if tier == 'quick' else 2500
+    nrand = 60 if tier == 'quick' else 1800
     for n in range(nrand):
         out.append(('random%d' % n, _random_lattice(rng, 8 if tier == 'quick' else 14)))
     return out
@@ -147,7 +147,7 @@ def run(tier, seed):
         built.append('%s (%d cells)' % (name, L.n_cells))
         chunk = 2500
         for i0 in range(0, L.n_cells, chunk):
-            T.run('grid_lookup', {'lattice': lat, 'probe': {'cells': [i0, min(i0 + chunk, L.n_cells)], 'ulps': [1] if tier == 'quick' else ([1, 4] if L.n_cells > 50000 else ulps),
+            T.run('grid_lookup', {'lattice': lat, 'probe': {'cells': [i0, min(i0 + chunk, L.n_cells)], 'ulps': ulps,
                                                             'holes': i0 == 0, 'beyond': i0 == 0}, 'each': 60},
                   key=('lookup', name, i0))
         step = 3000 if tier == 'quick' else 600
